@@ -69,16 +69,16 @@ type Obligation struct {
 }
 
 type Violation struct {
-	Kind    string          `json:"kind"` // "assert", "panic", "alloc", "deadlock", "race"
-	Label   string          `json:"label"`
-	Pos     string          `json:"pos"`
-	Msg     string          `json:"msg"`
-	Nondet  []NondetRec     `json:"nondet"`
-	Trace   []int           `json:"decisions"`
-	Ghost   []string        `json:"ghost,omitempty"`
-	Sched   []int           `json:"sched,omitempty"`
-	Harness string          `json:"harness"`
-	Extra   map[string]any  `json:"extra,omitempty"`
+	Kind    string         `json:"kind"` // "assert", "panic", "alloc", "deadlock", "race"
+	Label   string         `json:"label"`
+	Pos     string         `json:"pos"`
+	Msg     string         `json:"msg"`
+	Nondet  []NondetRec    `json:"nondet"`
+	Trace   []int          `json:"decisions"`
+	Ghost   []string       `json:"ghost,omitempty"`
+	Sched   []int          `json:"sched,omitempty"`
+	Harness string         `json:"harness"`
+	Extra   map[string]any `json:"extra,omitempty"`
 }
 
 type PathResult struct {
@@ -114,57 +114,57 @@ type Exec struct {
 	trace  []int
 	alts   [][]int
 
-	pc       []*Term
-	model    map[string]uint64 // model of pc, or nil if unknown
-	pcUnknown bool             // some feasibility check came back unknown
+	pc        []*Term
+	model     map[string]uint64 // model of pc, or nil if unknown
+	pcUnknown bool              // some feasibility check came back unknown
 
-	globals  map[*ssa.Global]*Value
-	inited   map[*ssa.Package]bool
+	globals   map[*ssa.Global]*Value
+	inited    map[*ssa.Package]bool
 	initDepth int
 
-	nondet   []NondetRec
-	nvar     int
-	steps    int
-	symDec   int
-	res      *PathResult
-	allocCap int64
-	ghost    []string
+	nondet      []NondetRec
+	nvar        int
+	steps       int
+	symDec      int
+	res         *PathResult
+	allocCap    int64
+	ghost       []string
 	expectPanic int
 
 	// concurrency (sched.go)
-	threads []*Thread
-	cur     *Thread
-	preempts int
-	schedLog []int
+	threads    []*Thread
+	cur        *Thread
+	preempts   int
+	schedLog   []int
 	nextChanID int
-	side     map[*Value]interface{} // model-object side tables keyed by cell
-	sideKeys []*Value
+	side       map[*Value]interface{} // model-object side tables keyed by cell
+	sideKeys   []*Value
 
-	ufCalls  map[string][]ufCall // Ackermann-free: we use real UFs; this records calls for replay realisation
-	errCount int
-	uniq     int
-	lastFrame    *Frame
-	lastInstr    ssa.Instruction
-	clock        *Term
-	timers       []timerRec
-	pools        map[*Value][]Value // sync.Pool contents
-	race         *raceState
-	fmtDepth     int       // formatter model: nesting depth and symbolic pieces of the call in progress
-	fmtSyms      [][]*Term
+	ufCalls         map[string][]ufCall // Ackermann-free: we use real UFs; this records calls for replay realisation
+	errCount        int
+	uniq            int
+	lastFrame       *Frame
+	lastInstr       ssa.Instruction
+	clock           *Term
+	timers          []timerRec
+	pools           map[*Value][]Value // sync.Pool contents
+	race            *raceState
+	fmtDepth        int // formatter model: nesting depth and symbolic pieces of the call in progress
+	fmtSyms         [][]*Term
 	topicCloseFails bool // pubsub model: Topic.Close reports outstanding subscriptions
-	seals        []*sealRec
-	hashFacts    []hashFact
-	hashApps     []hashFact
-	signs        []*signRec
-	verifies     []*signRec
-	nkeys        int
-	seqCounter   int
-	lockEvents   []lockEvent
-	atomicStores []Value
-	killed       bool
-	pendingAbort interface{}
-	deadlock     bool
-	harnessFn *ssa.Function
+	seals           []*sealRec
+	hashFacts       []hashFact
+	hashApps        []hashFact
+	signs           []*signRec
+	verifies        []*signRec
+	nkeys           int
+	seqCounter      int
+	lockEvents      []lockEvent
+	atomicStores    []Value
+	killed          bool
+	pendingAbort    interface{}
+	deadlock        bool
+	harnessFn       *ssa.Function
 }
 
 type ufCall struct {
